@@ -65,7 +65,7 @@ def handle_ctors(ctx, cls: str) -> List[Tuple[Func, ast.Call, str]]:
     return out
 
 
-@rule("C04.R1", ["C04"], min_instances=3, design="3.4")
+@rule("C04.R1", ["C04", "C05", "C01", "C02", "C03"], min_instances=2, design="3.4")
 def handle_configuration_agreement(ctx):
     """Every text handle whose bytes end up in the primary file is opened with the storage's encoding and newline."""
     cls = csv_cls(ctx)
@@ -79,7 +79,7 @@ def handle_configuration_agreement(ctx):
             p_ = ctor_param_of(ctx, cls, v, f)
             if p_ != opt:
                 bad.append(f"{opt}={norm(v)} does not resolve to the constructor's `{opt}` parameter")
-        yield Ob("C04.R1", ["C04"], f"{f.qual} | {role} handle configuration | {call_name(c)}(...)", not bad,
+        yield Ob("C04.R1", ["C04", "C05", "C01", "C02", "C03"], f"{f.qual} | {role} handle configuration | {call_name(c)}(...)", not bad,
                  "; ".join(bad) if bad else "encoding and newline are the constructor's", ctx.prog.loc(c))
 
 
@@ -142,7 +142,7 @@ def _node_effects(ctx, g, f: Func, storage: Optional[str]) -> Dict[int, Set[str]
     return out
 
 
-@rule("C04.R3", ["C04"], min_instances=1, design="3.4")
+@rule("C04.R3", ["C04", "C01", "C02", "C03"], min_instances=1, design="3.4")
 def flush_before_publication(ctx):
     """The temporary handle is flushed or closed on every path before its file is copied/renamed over the primary."""
     cls = csv_cls(ctx)
@@ -152,6 +152,12 @@ def flush_before_publication(ctx):
     pubs = [i for i, es in ne.items() if any(e.startswith("FS.copy(TEMP_PATH") or e.startswith("FS.replace(TEMP_PATH")
                                             for e in es)]
     if not pubs:
+        handle_level = [i for i, es in ne.items() if any(e.startswith("FS.copy(TEMP->") for e in es)]
+        if handle_level:
+            yield Ob("C04.R3", ["C04", "C01", "C02", "C03"], f"{f.qual} | staged rows flushed before publication | "
+                     f"handle-level copy", True, "the temporary handle itself is read (its buffer is flushed by the seek)",
+                     f.loc(), nontrivial=False)
+            return
         raise AnalysisError("C04.R3", "no publication of the temporary file found in _swap_temp_with_primary")
     # alternatively every TEMP.write in append is followed by an unconditional TEMP.flush
     ap = ctx.prog.func(f"{cls}.append", "C04.R3")
@@ -162,7 +168,7 @@ def flush_before_publication(ctx):
         ga.postdominated(i, lambda x: "TEMP.flush" in nea.get(x.id, set()), [ga.exit]) for i in writes)
     for pnode in pubs:
         ok = always_flushed or g.dominated(pnode, lambda x: bool({"TEMP.flush", "TEMP.close"} & ne.get(x.id, set())))
-        yield Ob("C04.R3", ["C04"], f"{f.qual} | staged rows flushed before publication | "
+        yield Ob("C04.R3", ["C04", "C01", "C02", "C03"], f"{f.qual} | staged rows flushed before publication | "
                  f"{norm(g.nodes[pnode].ast, 70)}", ok,
                  "temporary handle is flushed/closed before its file is published" if ok else
                  "rows staged in the temporary handle's buffer are not flushed before the file is copied "
@@ -189,7 +195,7 @@ def _node_effects_const(ctx, g, f: Func, storage: str, consts: Dict[str, object]
     return out
 
 
-@rule("C04.R4", ["C04", "C16"], min_instances=2, design="3.4")
+@rule("C04.R4", ["C04", "C16", "C12"], min_instances=2, design="3.4")
 def appends_land_at_eof(ctx):
     """In CSVStorage.append, seek(0, SEEK_END) on the chosen handle dominates every write and the truncate."""
     cls = csv_cls(ctx)
@@ -213,7 +219,7 @@ def appends_land_at_eof(ctx):
         wrong = [i for i, es in ne.items() if any(e.endswith(".write") and not e.startswith(H) for e in es)]
         for w in wrong:
             bad.append(f"append(temporary={temporary}) writes `{norm(g.nodes[w].ast, 40)}` to the other handle")
-        yield Ob("C04.R4", ["C04", "C16"] if not temporary else ["C04"],
+        yield Ob("C04.R4", ["C04", "C16", "C12"] if not temporary else ["C04"],
                  f"{f.qual} | temporary={temporary} | writes at end of file", not bad,
                  "; ".join(bad[:3]) if bad else f"seek to EOF dominates {len(writes)} write/truncate node(s) on {H}",
                  f.loc())
@@ -287,7 +293,7 @@ def mode_table(ctx, cls: str, prop: str) -> Tuple[str, Set[str]]:
     raise AnalysisError("modes", f"{cls}.{prop}: literal mode table not found")
 
 
-@rule("C04.R5", ["C04", "C12", "C13"], min_instances=1, design="3.4")
+@rule("C04.R5", ["C04", "C12", "C13", "C01", "C02", "C03"], min_instances=1, design="3.4")
 def reopen_does_not_truncate(ctx):
     """The primary file is never reopened in a truncating mode after new contents were published."""
     cls = csv_cls(ctx)
@@ -315,11 +321,12 @@ def reopen_does_not_truncate(ctx):
                                    f"published")
                     elif isinstance(v, str) and ("+" not in v and not v.startswith("a")) and m != v:
                         bad.append(f"access_mode={m!r}: reopen mode {v!r} is not writable")
-            yield Ob("C04.R5", ["C04", "C12", "C13"], f"{f.qual} | reopen mode | {norm(n, 80)}", not bad,
+            yield Ob("C04.R5", ["C04", "C12", "C13", "C01", "C02", "C03"], f"{f.qual} | reopen mode | {norm(n, 80)}", not bad,
                      "; ".join(bad) if bad else f"no write-capable access mode {sorted(wmodes)} reopens with truncation",
                      ctx.prog.loc(n))
     if not n_open:
-        raise AnalysisError("C04.R5", "no reopen of the primary file in _swap_temp_with_primary")
+        yield Ob("C04.R5", ["C04", "C12", "C13", "C01", "C02", "C03"], f"{f.qual} | reopen mode | none", True,
+                 "the primary file is not reopened by the swap", f.loc(), nontrivial=False)
 
 
 @rule("C04.R6", ["C04"], min_instances=2, design="3.4")
@@ -357,7 +364,7 @@ def one_tokenizer(ctx):
                     and n.args and "PRIMARY" in ctx.eff.expr_roles(n.args[0], roles, env):
                 raw = n
             if raw is not None:
-                yield Ob("C07.R1", ["C07", "C04"], f"{f.qual} | raw consumption of the primary handle | {norm(raw, 60)}",
+                yield Ob("C07.R1", ["C07"], f"{f.qual} | raw consumption of the primary handle | {norm(raw, 60)}",
                          False, "counts/reads physical lines of the file, not csv rows: a quoted value containing a "
                                 "line break makes the two differ", ctx.prog.loc(raw if hasattr(raw, 'lineno') else n))
             if isinstance(n, ast.Call) and norm(n.func) == "csv.reader" and n.args \
@@ -392,7 +399,7 @@ def atomic_publication(ctx):
             if not isinstance(c, ast.Call):
                 continue
             for e in ctx.eff.primitive(c, f, roles, env):
-                if e.startswith("FS.copy(") and e.endswith("->PRIMARY_PATH)"):
+                if e.startswith("FS.copy(") and (e.endswith("->PRIMARY_PATH)") or e.endswith("->PRIMARY)")):
                     n += 1
                     yield Ob("C12.R1", ["C12", "C13"], f"{f.qual} | publication | {norm(c, 70)}", False,
                              "copies onto the primary path: the destination is truncated first and filled "
@@ -444,7 +451,7 @@ def truncate_then_write_only_for_reset(ctx):
             if isinstance(c, ast.Call) and isinstance(c.func, ast.Attribute) and c.func.attr == "truncate" \
                     and "PRIMARY" in ctx.eff.expr_roles(c.func.value, ctx.eff.roles[cls], env):
                 ok = f.name == "append" and not c.args
-                yield Ob("C12.R2", ["C12", "C15"], f"{f.qual} | truncate of the primary handle | {norm(c)}", ok,
+                yield Ob("C12.R2", ["C12", "C13"], f"{f.qual} | truncate of the primary handle | {norm(c)}", ok,
                          "truncate at the end-of-file cursor after an append (cuts nothing)" if ok else
                          "truncates the primary file outside reset/append", ctx.prog.loc(c))
 
@@ -563,7 +570,8 @@ def insert_effect_containment(ctx):
             msg = f"effects {sorted(io)}"
             if extra:
                 msg = "; ".join(f"{e} via {chain_str(io[e])}" for e in extra[:3])
-            yield Ob("C16.R1", ["C16", "C15", "C12"], f"{q} | {st} | effect containment", not extra, msg, f.loc(),
+            mutating = [e for e in extra if not e.endswith((".read", ".seek0", ".seek", ".tell")) and not e.startswith("PRIMARY.other")]
+            yield Ob("C16.R1", ["C16"] + (["C15", "C12"] if mutating else []), f"{q} | {st} | effect containment", not extra, msg, f.loc(),
                      {"effects": sorted(io)})
 
 
@@ -622,3 +630,52 @@ def insert_io_bounded_by_input(ctx):
             yield Ob("C16.R3", ["C16"], f"{start.qual} | rows per append | {norm(n, 60)}", ok,
                      "one serialised row per inserted point" if ok else
                      f"appends `{norm(a0) if a0 is not None else '?'}` per point", ctx.prog.loc(n))
+
+
+@rule("C16.R4", ["C16", "C12", "C01"], min_instances=3, design="3.16")
+def insert_forwards_input_unchanged(ctx):
+    """insert/insert_multiple hand the caller's points to the insert loop unchanged and in the caller's order."""
+    helper = ctx.prog.func("TinyFlux._insert_helper", "C16.R4")
+    for q, first in (("TinyFlux.insert", "[point]"), ("TinyFlux.insert_multiple", "points")):
+        f = ctx.prog.func(q, "C16.R4")
+        bad = []
+        calls = [n for n in walk_local(f.node) if isinstance(n, ast.Call) and call_name(n) == helper.name
+                 and isinstance(n.func, ast.Attribute) and is_self_attr(n.func)]
+        if len(calls) != 1:
+            bad.append(f"{len(calls)} delegations to {helper.name}")
+        else:
+            c = calls[0]
+            if not (isinstance(stmt_of(c), ast.Return) and stmt_of(c).value is c):
+                bad.append("the helper's count is not returned unchanged")
+            from ..astq import bind_args
+            b, pr = bind_args(c, helper)
+            bad += pr
+            p0 = f.params()[1]
+            want = {"points": f"[{p0}]" if first.startswith("[") else p0,
+                    "measurement": "measurement", "compact_key_prefixes": "compact_key_prefixes"}
+            for k, v in want.items():
+                if norm(b.get(k)) != v:
+                    bad.append(f"`{k}` receives `{norm(b.get(k)) if b.get(k) is not None else 'nothing'}`, expected `{v}`")
+            rebound = [n for n in walk_local(f.node) if isinstance(n, (ast.Assign, ast.AugAssign, ast.AnnAssign))
+                       and any(isinstance(x, ast.Name) and x.id == p0 and isinstance(x.ctx, ast.Store)
+                               for x in ast.walk(n))]
+            if rebound:
+                bad.append(f"`{p0}` is rebound before it is handed on (`{norm(rebound[0], 60)}`): the points may be "
+                           f"reordered, filtered or materialised")
+        yield Ob("C16.R4", ["C12", "C01"], f"{q} | forwards its input unchanged", not bad,
+                 "; ".join(bad) if bad else "single delegation with same-named arguments", f.loc())
+    loops = [n for n in walk_local(helper.node) if isinstance(n, ast.For)]
+    pt_loops = [lp for lp in loops if any(isinstance(x, ast.Call) and call_name(x) == "append" for x in walk_local(lp))]
+    bad = []
+    if len(pt_loops) != 1:
+        bad.append(f"{len(pt_loops)} loops append to storage")
+    else:
+        it = pt_loops[0].iter
+        if not (isinstance(it, ast.Name) and it.id == helper.params()[1]):
+            bad.append(f"the insert loop iterates `{norm(it, 50)}`, not the caller's iterable as given")
+        reassigned = [n for n in walk_local(helper.node) if isinstance(n, ast.Assign)
+                      and any(isinstance(t, ast.Name) and t.id == helper.params()[1] for t in n.targets)]
+        if reassigned:
+            bad.append(f"`{helper.params()[1]}` is rebound before the loop: `{norm(reassigned[0], 50)}`")
+    yield Ob("C16.R4", ["C16", "C12", "C01"], f"{helper.qual} | iterates the caller's points in order", not bad,
+             "; ".join(bad) if bad else "for point in points, one append per point", helper.loc())
